@@ -29,6 +29,8 @@ def run(ctx):
     lib_module.array_flags(ctx, P, only=ms)
     lib_module.parsed_used(ctx, P, only=ms)
     lib_module.narrowing(ctx, P)
+    from . import lib_kind2
+    lib_kind2.guard_nan(ctx, P, tus=("tables",), funcs={"tsk_ibd_finder_init"})       # min_span / max_time: NaN is refused, not silently given a meaning
     lib_module.format_types(ctx, P, only=ms)
     lib_err.discipline(ctx, P, ["tables"], funcs={f.name for f in P.tus["tables"].funcs.values() if "ibd" in f.name or "identity_segments" in f.name})
     lib_py.kw_forward(ctx, py, mods=("trees", "tables"), only=ps)
